@@ -161,13 +161,10 @@ fn all_or_nothing(
             );
           }
         }
-        for d in &diag_mods {
-          if !entrypoints.contains(d) {
-            o.violate(
-              format!("C12/{which}/diagnostics-on-non-entrypoint"),
-              format!("package {k}: {d} carries diagnostics but is not an entrypoint ({entrypoints:?})"),
-            );
-          }
+        // (diagnostics on further modules are neither demanded nor
+        // forbidden by the statement)
+        if diag_mods.iter().any(|d| !entrypoints.contains(d)) {
+          o.label("diagnostics-on-non-entrypoint");
         }
       }
     } else {
